@@ -9,6 +9,8 @@ IDS="${*:-$(ls mutants | sort)}"
 run_one() {
   p="$1"; id="$2"; seed="$3"
   case "$(basename "$p")" in harmless-*) want=0;; *) want=1;; esac
+  # a seeded change that a later repair of /repo made harmless (meta.json "neutralised_by") must now pass
+  [ -f "$(dirname "$p")/meta.json" ] && grep -q '"neutralised_by"' "$(dirname "$p")/meta.json" && want=0
   out=$(VERIF_SEED=$seed timeout 1800 tools/with_mutant.sh "$p" "$id" 2>&1); rc=$?
   nf=$(echo "$out" | grep -c "no-failing-input-found"); vi=$(echo "$out" | grep -c "^VIOLATION")
   kind="-"; [ "$vi" -gt 0 ] && { [ "$nf" -eq "$vi" ] && kind="no-failing-input-found" || kind="failing-input"; }
